@@ -449,14 +449,12 @@ def moduleHook (c : PCfg) (m : Items) (fuel : Nat) : PM (Items × Except PErr Bo
         match m.getLast? with
         | none => pure (m, .error .exc)
         | some (lastK, lastV) =>
-          let lastTok := tokenTextOf lastV
           let st ← get
-          let bare : Bool := match st.simple with
-            | some w => (match lastV with
-                         | .str sv => sv == w.text
-                         | _ => false)
-            | none => true            -- not known how it was written
-          match (if bare then Tok.isParameterName c.d lastTok else .ok false) with
+          -- judge the token as it was written when `parse_value` remembered it
+          let lastTok := match st.simple with
+            | some w => w.text
+            | none => tokenTextOf lastV
+          match Tok.isParameterName c.d lastTok with
           | .error e => pure (m, .error (ofDErr e))
           | .ok true =>
             mark "omni-hook-reinterprets-previous-value-as-name"
@@ -511,6 +509,8 @@ def aggBlock (c : PCfg) : Nat → PM (Str × Val)
     | none => throwIn
     | some kind =>
       let items ← aggLoop c begin name [] fuel
+      -- the container just built is not the object `_simple_value` names
+      modify (fun s => { s with simple := none })
       pure (name, .cont kind items)
 
 def aggLoop (c : PCfg) (begin name : Str) (agg : Items) : Nat → PM Items
